@@ -266,7 +266,9 @@ RdOk(req, served) ==
 
 (* Stream names chosen by a publisher: segments joined with "/" (an RTMP publish name is an     *)
 (* arbitrary string; an RTSP name is the last item of the URL path).                            *)
-NameSegs == {"name", ".", "..", "", "a", "%2e%2e", "..-1-2.ts", "...m3u8"}
+\* "hls_evil": a sibling of the HLS root whose name begins with the root's name (a textual prefix test on joined paths takes
+\* a/b/hls_evil for something below a/b/hls)
+NameSegs == {"name", ".", "..", "", "a", "%2e%2e", "..-1-2.ts", "...m3u8", "hls_evil"}
 WrEscapes(name) ==      \* a naive join of the name below a root leaves the root (or is the root's parent)
   LET d == Norm(RootHls \o name, <<>>) IN ~(d = RootHls \/ Inside(d, RootHls))
 WrOk(name, proto, created, deleted) ==
